@@ -92,33 +92,37 @@ def shard(binpath, seed, sh, plans):
     for (level, delta, offset, frac, style) in plans:
         if delta in ("min", "max"):
             T = None
+            text = "0000-01-01T00:00:00Z" if delta == "min" else "9999-12-31T23:59:59Z"
         else:
             try:
                 T = (now + datetime.timedelta(seconds=delta + 2)).replace(microsecond=0)
+                text = notation(T, frac, offset, style)
             except OverflowError:
                 continue
+        # The document is handed to the signer with the expiry already written in the notation under test:
+        # the signature covers whatever the library itself derives from that text, exactly as for a layout
+        # authored with this notation.
         if level == "top":
-            node = pipeline.make_node(rng, W, 0, ["ed0"], expires=scen.iso(T) if T else ("0000-01-01T00:00:00Z" if delta == "min" else "9999-12-31T23:59:59Z"))
+            node = pipeline.make_node(rng, W, 0, ["ed0"], expires=text)
         else:
             node = pipeline.make_node(rng, W, 1, ["ed0"], nsteps=2, delegate_prob=1.0)
             child = node["steps"][rng.randrange(2)]["evidence"][0]["node"]
-            child["layout"]["expires"] = scen.iso(T) if T else ("0000-01-01T00:00:00Z" if delta == "min" else "9999-12-31T23:59:59Z")
+            child["layout"]["expires"] = text
             node["_swept"] = child
         pipeline.collect_requests(node, reqs)
-        trees.append((node, level, T, delta, offset, frac, style))
+        trees.append((node, level, T, delta, offset, frac, style, text))
     wires = scen.sign_all(binpath, reqs, nproc=1)
     cases = []
-    for node, level, T, delta, offset, frac, style in trees:
+    for node, level, T, delta, offset, frac, style, text in trees:
         target = node if level == "top" else node["_swept"]
         w = copy.deepcopy(wires[target["req"]])
         if T is not None:
-            text = notation(T, frac, offset, style)
             frac_ns = int(round(float("0" + frac) * 1e9)) if frac else 0
             instant_ns = int(T.timestamp()) * 10 ** 9 + frac_ns
-            w["signed"]["expires"] = text
         else:
-            text = w["signed"]["expires"]
             instant_ns = -62167219200 * 10 ** 9 if delta == "min" else 253402300799 * 10 ** 9
+        # the signer returns the normalised (UTC, Z) form; the wire file carries the notation under test
+        w["signed"]["expires"] = text
         wires[target["req"]] = w
         files = pipeline.tree_files(W, node, wires)
         ncls = ("Z" if offset is None else ("zero-offset" if offset in ("+00:00", "-00:00") else "offset"))
